@@ -198,6 +198,8 @@ def post_flat(case, r, res, obs):
 
 
 def run(rep, tier):
+    from .. import scale
+    scale.run(rep, PROP, tier)          # size ladders (seedverif/scale.py): the entries that concern this property
     rng = core.rng_for(PROP)
     nmax = 3 if tier == "quick" else 4
     jobs = []
